@@ -144,7 +144,8 @@ def rule_shield(ctx):
     ctx.rule("C14.SHIELD", "the data-connection wait never cancels the session's presence futures: the awaited aggregate is shielded and nothing in the guard cancels it")
     w = p.wrapper_of("ConnectionConditions")
     waits = [c for c in walk_no_nested(w) if isinstance(c, ast.Call) and (dotted(c.func) or "").endswith("wait_for")]
-    ok = bool(waits)
+    plain_waits = [c for c in walk_no_nested(w) if isinstance(c, ast.Call) and (dotted(c.func) or "") in ("asyncio.wait", "wait")]
+    ok = bool(waits) or bool(plain_waits)    # asyncio.wait() never cancels what it waits for: nothing to shield
     for c in waits:
         a = expand(p, c.args[0], w) if c.args else None
         ok = ok and isinstance(a, ast.Call) and (dotted(a.func) or "").endswith("shield")
